@@ -496,6 +496,7 @@ pub fn build_node(it: &J) -> P {
         // a fixed word (`literal`): the next unclaimed word must be exactly this one
         "pos" | "lit" if !s(it, "lit").is_empty() => {
             let l = bpaf::literal(leak(&dstr(s(it, "lit"))));
+            let l = if s(it, "help").is_empty() || kind != "lit" { l } else { l.help(help_doc(it)) };
             // (the tag of an adjacent group: looked for anywhere on the line)
             if b(it, "anywhere") || kind == "lit" {
                 l.anywhere().map(|_| Val::Unit).boxed()
